@@ -31,6 +31,7 @@ package zerolog
 //@   props C04 C13
 //@   arith bv
 //@   requires l != nil && gLevel != nil && disableSampling != nil
+//@   flag replay should hasw=l.w lvl=lvl llevel=l.level glevel=deref(gLevel) disable=deref(disableSampling) hassampler=l.sampler
 //@   ensures [C04] res == (l.w != nil && lvl >= l.level && lvl >= int8(deref(gLevel)) && (l.sampler == nil || deref(disableSampling) == 1 || callres(Sampler.Sample, old(ncalls(Sampler.Sample)), 0)))
 //@   ensures [C04,C13] ncalls(Sampler.Sample) == old(ncalls(Sampler.Sample)) + ite(l.w != nil && lvl >= l.level && lvl >= int8(deref(gLevel)) && l.sampler != nil && deref(disableSampling) != 1, 1, 0)
 //@   ensures [C13] ncalls(Sampler.Sample) > old(ncalls(Sampler.Sample)) ==> callarg(Sampler.Sample, old(ncalls(Sampler.Sample)), 0) == l.sampler && callarg(Sampler.Sample, old(ncalls(Sampler.Sample)), 1) == lvl
@@ -42,6 +43,7 @@ package zerolog
 //@   props C13
 //@   arith bv
 //@   requires s != nil
+//@   flag replay basic_sampler N=s.N counter=s.counter
 //@   ensures s.N == old(s.N)
 //@   ensures s.N == 0 ==> !res && s.counter == old(s.counter)
 //@   ensures s.N == 1 ==> res && s.counter == old(s.counter)
@@ -74,3 +76,30 @@ package zerolog
 //@   ensures lvl == WarnLevel && s.WarnSampler != nil ==> ncalls(Sampler.Sample) == old(ncalls(Sampler.Sample)) + 1 && callarg(Sampler.Sample, old(ncalls(Sampler.Sample)), 0) == s.WarnSampler && callarg(Sampler.Sample, old(ncalls(Sampler.Sample)), 1) == lvl && res == callres(Sampler.Sample, old(ncalls(Sampler.Sample)), 0)
 //@   ensures lvl == ErrorLevel && s.ErrorSampler != nil ==> ncalls(Sampler.Sample) == old(ncalls(Sampler.Sample)) + 1 && callarg(Sampler.Sample, old(ncalls(Sampler.Sample)), 0) == s.ErrorSampler && callarg(Sampler.Sample, old(ncalls(Sampler.Sample)), 1) == lvl && res == callres(Sampler.Sample, old(ncalls(Sampler.Sample)), 0)
 //@   ensures !((lvl == TraceLevel && s.TraceSampler != nil) || (lvl == DebugLevel && s.DebugSampler != nil) || (lvl == InfoLevel && s.InfoSampler != nil) || (lvl == WarnLevel && s.WarnSampler != nil) || (lvl == ErrorLevel && s.ErrorSampler != nil)) ==> res && ncalls(Sampler.Sample) == old(ncalls(Sampler.Sample))
+
+// ---------------------------------------------------------------------------
+// writer.go
+
+//@ func (*FilteredLevelWriter).WriteLevel(w, level, p) n, err
+//@   props C14
+//@   arith bv
+//@   requires w != nil && w.Writer != nil
+//@   ensures level >= w.Level ==> ncalls(LevelWriter.WriteLevel) == old(ncalls(LevelWriter.WriteLevel)) + 1 && callarg(LevelWriter.WriteLevel, old(ncalls(LevelWriter.WriteLevel)), 0) == w.Writer && callarg(LevelWriter.WriteLevel, old(ncalls(LevelWriter.WriteLevel)), 1) == level && same(callarg(LevelWriter.WriteLevel, old(ncalls(LevelWriter.WriteLevel)), 2), p)
+//@   ensures level >= w.Level ==> n == callres(LevelWriter.WriteLevel, old(ncalls(LevelWriter.WriteLevel)), 0) && err == callres(LevelWriter.WriteLevel, old(ncalls(LevelWriter.WriteLevel)), 1)
+//@   ensures level < w.Level ==> ncalls(LevelWriter.WriteLevel) == old(ncalls(LevelWriter.WriteLevel)) && n == len(p) && err == nil
+
+//@ func (multiLevelWriter).WriteLevel(t, l, p) n, err
+//@   props C14
+//@   arith int
+//@   requires forall k in 0..len(t.writers): t.writers[k] != nil
+//@   ensures ncalls(LevelWriter.WriteLevel) == old(ncalls(LevelWriter.WriteLevel)) + len(t.writers)
+//@   ensures forall k in 0..len(t.writers): callarg(LevelWriter.WriteLevel, old(ncalls(LevelWriter.WriteLevel)) + k, 0) == t.writers[k] && callarg(LevelWriter.WriteLevel, old(ncalls(LevelWriter.WriteLevel)) + k, 1) == l && same(callarg(LevelWriter.WriteLevel, old(ncalls(LevelWriter.WriteLevel)) + k, 2), p)
+//@   ensures (err == nil) == (forall k in 0..len(t.writers): callres(LevelWriter.WriteLevel, old(ncalls(LevelWriter.WriteLevel)) + k, 1) == nil && callres(LevelWriter.WriteLevel, old(ncalls(LevelWriter.WriteLevel)) + k, 0) == len(p))
+//@   ensures err != nil ==> exists j in 0..len(t.writers): (forall k in 0..j: callres(LevelWriter.WriteLevel, old(ncalls(LevelWriter.WriteLevel)) + k, 1) == nil && callres(LevelWriter.WriteLevel, old(ncalls(LevelWriter.WriteLevel)) + k, 0) == len(p)) && (callres(LevelWriter.WriteLevel, old(ncalls(LevelWriter.WriteLevel)) + j, 1) != nil ==> err == callres(LevelWriter.WriteLevel, old(ncalls(LevelWriter.WriteLevel)) + j, 1)) && (callres(LevelWriter.WriteLevel, old(ncalls(LevelWriter.WriteLevel)) + j, 1) == nil ==> callres(LevelWriter.WriteLevel, old(ncalls(LevelWriter.WriteLevel)) + j, 0) != len(p) && err == io.ErrShortWrite)
+//@   loop 1:
+//@     invariant 0 <= rangeindex + 1 && rangeindex + 1 <= len(t.writers)
+//@     invariant ncalls(LevelWriter.WriteLevel) == old(ncalls(LevelWriter.WriteLevel)) + rangeindex + 1
+//@     invariant forall k in 0..rangeindex+1: callarg(LevelWriter.WriteLevel, old(ncalls(LevelWriter.WriteLevel)) + k, 0) == t.writers[k] && callarg(LevelWriter.WriteLevel, old(ncalls(LevelWriter.WriteLevel)) + k, 1) == l && same(callarg(LevelWriter.WriteLevel, old(ncalls(LevelWriter.WriteLevel)) + k, 2), p)
+//@     invariant (err == nil) == (forall k in 0..rangeindex+1: callres(LevelWriter.WriteLevel, old(ncalls(LevelWriter.WriteLevel)) + k, 1) == nil && callres(LevelWriter.WriteLevel, old(ncalls(LevelWriter.WriteLevel)) + k, 0) == len(p))
+//@     invariant err != nil ==> exists j in 0..rangeindex+1: (forall k in 0..j: callres(LevelWriter.WriteLevel, old(ncalls(LevelWriter.WriteLevel)) + k, 1) == nil && callres(LevelWriter.WriteLevel, old(ncalls(LevelWriter.WriteLevel)) + k, 0) == len(p)) && (callres(LevelWriter.WriteLevel, old(ncalls(LevelWriter.WriteLevel)) + j, 1) != nil ==> err == callres(LevelWriter.WriteLevel, old(ncalls(LevelWriter.WriteLevel)) + j, 1)) && (callres(LevelWriter.WriteLevel, old(ncalls(LevelWriter.WriteLevel)) + j, 1) == nil ==> callres(LevelWriter.WriteLevel, old(ncalls(LevelWriter.WriteLevel)) + j, 0) != len(p) && err == io.ErrShortWrite)
+//@     decreases len(t.writers) - (rangeindex + 1)
